@@ -245,6 +245,13 @@ def install_walk_guard(ctx, cap=64):
     return counts
 
 
+def safe_str(exc):
+    try:
+        return str(exc)
+    except Exception as e2:
+        return "<str() raised %s>" % type(e2).__name__
+
+
 def make_c03_judge():
     def judge(obs, ctx):
         from moclo import errors
@@ -272,9 +279,16 @@ def make_c03_judge():
             elif isinstance(e, errors.InvalidSequence):
                 tag = "invalid"
             else:
-                ctx.violation("graph-outcome-unexpected-exception:%s" % type(e).__name__, "%s raised %s: %s" % (desc, type(e).__name__, str(e)[:200]), **w)
+                ctx.violation("graph-outcome-unexpected-exception:%s" % type(e).__name__, "%s raised %s: %s" % (desc, type(e).__name__, safe_str(e)[:200]), **w)
                 return
             ctx.hist("c03_outcome", tag if isinstance(tag, str) else "missing")
+            # the raised MoClo error must be renderable (an error whose str() raises surfaces as an internal error when logged)
+            try:
+                str(e)
+            except Exception as e2:
+                ctx.violation("moclo-exception-cannot-be-rendered:%s:%s" % (type(e).__name__, type(e2).__name__),
+                              "%s: str() of the raised %s raises %s: %s" % (desc, type(e).__name__, type(e2).__name__, str(e2)[:120]), **w)
+                return
             if tag not in adm:
                 if tag == "duplicate":
                     dups = getattr(e, "duplicates", ())
@@ -284,7 +298,7 @@ def make_c03_judge():
                     mech = "invalid-vector-raised-for-distinct-overhangs"
                 else:
                     mech = "missing-module-wrong" + (":wrong-overhang" if any(isinstance(a, tuple) for a in adm) else ":chain-was-" + "/".join(adm_desc))
-                ctx.violation(mech, "%s: raised %s (%s) but the admissible outcomes are %s" % (desc, type(e).__name__, str(e)[:120], adm_desc), **w)
+                ctx.violation(mech, "%s: raised %s (%s) but the admissible outcomes are %s" % (desc, type(e).__name__, safe_str(e)[:120], adm_desc), **w)
                 return
             if tag == "duplicate":
                 dups = list(getattr(e, "duplicates", ()))
